@@ -21,6 +21,14 @@ import txdbus.interface as t_iface  # noqa: E402
 import txdbus.message as t_msg  # noqa: E402
 import txdbus.protocol as t_proto  # noqa: E402
 
+# Twisted's log beginner otherwise buffers events and prints failures to stderr
+from twisted.logger import globalLogBeginner  # noqa: E402
+try:
+    globalLogBeginner.beginLoggingTo([lambda e: None], redirectStandardIO=False,
+                                     discardBuffer=True)
+except Exception:
+    pass
+
 # import-time snapshot of the interface cache (Properties, org.freedesktop.DBus, ...)
 KNOWN_AT_IMPORT = dict(t_iface.DBusInterface.knownInterfaces)
 
